@@ -191,7 +191,7 @@ func globMatch(checks string, code string) bool {
 func Run(r *vf.Run) {
 	bin := r.BuildBin("staticcheck", "honnef.co/go/tools/cmd/staticcheck", false)
 	nWorkers := 6
-	nPlace := r.Pick(240, 2000)
+	nPlace := r.Pick(240, 1000)
 	states := []gen.WSState{
 		{Deprecated: true, NeverNil: true, LocalB: 2, LocalA: 1, ExtTest: true, GoVersion: "1.22"},
 		{Deprecated: true, Impure: false, LocalB: 3, LocalA: 3, GoVersion: "1.22"},
@@ -300,7 +300,7 @@ func Run(r *vf.Run) {
 	r.Set("problems_predicted_suppressed", suppressed)
 	r.Set("placements_with_predicted_directive_problem", dirProbs)
 	r.Assume("go/ast.NewCommentMap decides which node a directive comment is attached to; U1000 directives are generated only with the exact spelling U1000 and alone in their list")
-	r.Finish(evals, nontriv, r.Pick(40, 400),
+	r.Finish(evals, nontriv, r.Pick(40, 200),
 		"each placement inserts one //lint:ignore or //lint:file-ignore line above a statement/declaration of the wsgen workspace (check lists: exact id on that line, id of another line, globs, wrong case, U1000, disabled check, several, unknown; with/without reason; default checks or -checks all) and predicts the new -show-ignored report from the old one. non-trivial = placements where the prediction differs from a pure line shift (something suppressed, or a directive problem expected)")
 }
 
